@@ -132,6 +132,12 @@ type Behaviour struct {
 	IgnoreTopicFilter bool `json:"ignore_topic_filter,omitempty"` // answer every topic even when ?topic= is given
 	// POSTs (admin actions)
 	PostFail bool `json:"post_fail,omitempty"`
+	// C18: documents computed per request (they take precedence when set)
+	StatsFn  func(topic, channel string, includeClients bool) string `json:"-"`
+	NodesFn  func() string                                         `json:"-"`
+	LookupFn func(topic string) string                             `json:"-"`
+	TopicsFn func() string                                         `json:"-"`
+	InfoFn   func() string                                         `json:"-"`
 }
 
 type InfoJSON struct {
@@ -236,6 +242,10 @@ func (s *Stub) serve(w http.ResponseWriter, r *http.Request) {
 		if failed(b.InfoFail) {
 			return
 		}
+		if b.InfoFn != nil {
+			reply(200, b.InfoFn())
+			return
+		}
 		if b.Info != nil {
 			js(b.Info)
 		} else {
@@ -245,6 +255,10 @@ func (s *Stub) serve(w http.ResponseWriter, r *http.Request) {
 		if failed(b.StatsFail) {
 			return
 		}
+		if b.StatsFn != nil {
+			reply(200, b.StatsFn(q.Get("topic"), q.Get("channel"), q.Get("include_clients") != "false"))
+			return
+		}
 		if b.RawStats != "" {
 			reply(200, b.RawStats)
 			return
@@ -252,6 +266,10 @@ func (s *Stub) serve(w http.ResponseWriter, r *http.Request) {
 		reply(200, renderStats(b.Stats, q.Get("topic"), q.Get("channel"), q.Get("include_clients") != "false", b.IgnoreTopicFilter))
 	case "topics":
 		if failed(false) {
+			return
+		}
+		if b.TopicsFn != nil {
+			reply(200, b.TopicsFn())
 			return
 		}
 		ts := b.Topics
@@ -283,6 +301,10 @@ func (s *Stub) serve(w http.ResponseWriter, r *http.Request) {
 		if failed(false) {
 			return
 		}
+		if b.NodesFn != nil {
+			reply(200, b.NodesFn())
+			return
+		}
 		if b.RawNodes != "" {
 			reply(200, b.RawNodes)
 			return
@@ -294,6 +316,10 @@ func (s *Stub) serve(w http.ResponseWriter, r *http.Request) {
 		js(map[string]interface{}{"producers": ps})
 	case "lookup":
 		if failed(false) {
+			return
+		}
+		if b.LookupFn != nil {
+			reply(200, b.LookupFn(q.Get("topic")))
 			return
 		}
 		if b.RawNodes != "" {
